@@ -5,13 +5,15 @@ Writes seeded/RESULTS.md and updates each meta.json (detected_by). Nothing is ap
 import json,glob,os,subprocess,re,sys
 os.chdir('/verif')
 ENV="export PATH=/opt/veriftools/go1.26.8/bin:$PATH GOTOOLCHAIN=local GOFLAGS=-mod=mod GOPROXY=off GOSUMDB=off; unset GOWORK; "
-WT='/tmp/seedwt'
+SHARD=os.environ.get('MATRIX_SHARD','')
+WT='/tmp/seedwt'+SHARD
 def sh(c):
     p=subprocess.run(['bash','-c',ENV+c],capture_output=True,text=True); return p.returncode,p.stdout+p.stderr
 import shutil
-shutil.copy('/verif/bin/amcheck','/tmp/amcheck.matrix')  # a private copy: rebuilding bin/amcheck while the matrix runs must not mix binaries
+BIN='/tmp/amcheck.matrix'+SHARD
+shutil.copy('/verif/bin/amcheck',BIN)  # a private copy: rebuilding bin/amcheck while the matrix runs must not mix binaries
 def viol():
-    rc,out=sh('/tmp/amcheck.matrix -verif /verif -repo %s -prop all -listviol 2>&1'%WT)
+    rc,out=sh('%s -verif /verif -repo %s -prop all -listviol 2>&1'%(BIN,WT))
     v=set(l[2:] for l in out.splitlines() if l.startswith('V '))
     u=set(l[2:] for l in out.splitlines() if l.startswith('U ') or l.startswith('UNDECIDED'))
     return v,u,out
